@@ -7,6 +7,7 @@ import (
 	"fmt"
 	"hash/crc32"
 	"net"
+	"strconv"
 
 	gnet "github.com/panjf2000/gnet/v2"
 	"github.com/panjf2000/gnet/v2/zzverif/vlib"
@@ -200,6 +201,35 @@ func main() {
 				res.Distinct(fmt.Sprintf("hash N=%d", n))
 			}
 		}
+	}
+	// a long history: more assignments than a 32-bit int can count (only where int has 32 bits; 2^63 cannot be run)
+	if strconv.IntSize == 32 {
+		n := 3
+		lb := gnet.VerifNewLB(gnet.RoundRobin, n)
+		counts := make([]int64, n)
+		total := int64(1)<<31 + 9
+		p, msg := vlib.Catch(func() {
+			for i := int64(0); i < total; i++ {
+				idx := lb.Next(nil)
+				if idx < 0 || idx >= n {
+					res.Violate("C15 RoundRobin returned an unregistered loop", fmt.Sprintf("N=%d call %d (long history)", n, i), map[string]any{"policy": "rr", "n": n})
+					return
+				}
+				counts[idx]++
+			}
+		})
+		evals += total
+		if p {
+			res.Violate("C15 RoundRobin panic", fmt.Sprintf("N=%d after %d assignments (long history on a platform with 32-bit int): %s", n, counts[0]+counts[1]+counts[2], msg), map[string]any{"policy": "rr", "n": n})
+		} else {
+			for j := range counts {
+				if d := counts[j] - total/int64(n); d < 0 || d > 1 {
+					res.Violate("C15 RoundRobin uneven after a long history", fmt.Sprintf("N=%d after %d assignments: per-loop %v", n, total, counts), map[string]any{"policy": "rr", "n": n})
+					break
+				}
+			}
+		}
+		res.Distinct("rr long-history > 2^31 assignments (32-bit int)")
 	}
 	res.Eval(evals)
 	res.Sample(map[string]any{"policies": "RoundRobin k*N calls, LeastConnections random count vectors, SourceAddrHash incl. crafted CRC32 values 0x80000000/0x7fffffff", "N": "1..256"})
